@@ -494,14 +494,23 @@ func combinatorUnwiredCase(c *Case) Verdict {
 // paramChainRunToCase: the RunTo target depends THROUGH A PARAMETER CONNECTION
 // on a process that has upstream processes itself (sources -> ParamCombinator
 // ==params==> target), next to processes that must not run.
-func paramChainRunToCase(c *Case) Verdict {
+func paramChainWF(c *Case) *WF {
 	t := c.Tape
 	w := &WF{Name: "wf", Sources: map[string]string{}, MaxTasks: 1 + t.Choose(simrt.StGen, 3, 0), Bufsize: bufsizeOf(t)}
 	ports := []string{"a", "b", "c"}
 	k := 1 + t.Choose(simrt.StGen, 3, 0)
+	kt := k
+	if k >= 2 && t.Choose(simrt.StGen, 2, 0) == 1 {
+		// the last parameter stream goes to a process OUTSIDE the closure: under
+		// RunTo it dangles (to the sink) next to the file stream of the target
+		kt = k - 1
+	}
 	cmb := Node{Name: "pcomb", Kind: KParamCombinator}
 	for i := 0; i < k; i++ {
-		n := 1 + t.Choose(simrt.StGen, 2, 0)
+		n := 1 + t.Choose(simrt.StGen, 3, 0)
+		if i >= kt {
+			n = 1 // one value only: the target's own streams then stay free of repeated tuples
+		}
 		var vals []string
 		for x := 0; x < n; x++ {
 			vals = append(vals, fmt.Sprintf("%s%d", ports[i], x))
@@ -514,7 +523,10 @@ func paramChainRunToCase(c *Case) Verdict {
 	for i := 0; i < k; i++ {
 		outs = append(outs, Edge{ci, ports[i]})
 	}
-	tgt := paramConsumer(w, "target", outs, ports[:k])
+	if kt < k {
+		paramConsumer(w, "pside", outs[kt:], ports[kt:k])
+	}
+	tgt := paramConsumer(w, "target", outs[:kt], ports[:kt])
 	after := oneToOne(w, "after", Edge{tgt, "o0"})
 	oneToOne(w, "after2", Edge{after, "o0"})
 	oneToOne(w, "side", Edge{srcNode(w, "srcs", 1, ""), "out"})
@@ -523,6 +535,11 @@ func paramChainRunToCase(c *Case) Verdict {
 		w.RunTo = []string{"after"}
 	}
 	w.RunToMode = t.Choose(simrt.StGen, 3, 0)
+	return w
+}
+
+func paramChainRunToCase(c *Case) Verdict {
+	w := paramChainWF(c)
 	c.Sample = sample(w)
 	ex := Eval(w)
 	inc := RunInc(w, c.Tape, nil, 0, IncOpts{KillAt: -1, Strategy: strategyOf(c.Tape), Trace: c.Trace})
